@@ -84,6 +84,25 @@ func runC15(c *core.Ctx) error {
 			spec = core.SelAll()
 		} else {
 			spec = core.GenSelector(c.Rand, g, 0, false, false)
+			if i%8 == 5 {
+				// directed: InterpretAs clauses layered directly inside one another (one position, several reifications),
+				// at the root or one step down, around a selector that visits something
+				as := func(x core.Val) core.Val {
+					return core.Map(core.KV{K: []byte("~"), V: core.Map(core.KV{K: []byte("as"), V: core.Str("someadl")}, core.KV{K: []byte(">"), V: x})})
+				}
+				inner := spec
+				if c.Rand.Chance(1, 2) {
+					inner = core.SelAll()
+				}
+				spec = as(as(inner))
+				if c.Rand.Chance(1, 3) {
+					spec = as(spec)
+				}
+				if c.Rand.Chance(1, 3) {
+					spec = core.Map(core.KV{K: []byte("|"), V: core.List(core.Map(core.KV{K: []byte("."), V: core.Map()}), core.Map(core.KV{K: []byte("a"), V: core.Map(core.KV{K: []byte(">"), V: spec})}))})
+				}
+				c.Dist("directed:layered-interpret-as")
+			}
 			distSelector(c, spec)
 		}
 		// specs with ExploreInterpretAs clauses are walked with an identity reifier registered (without one the walk is an
